@@ -5,6 +5,7 @@ import (
 	"go/ast"
 	"sort"
 	"strings"
+	"unicode"
 )
 
 // C13: weekday/month tables, order of sortSets, and the two switches of cmd/helpers/sorting.go.
@@ -135,6 +136,34 @@ func init() {
 		}
 		if !found {
 			sb.WriteString(untranslatable("reverseDefault"))
+		}
+
+		// unicode.ToLower of the toolchain the harness (and rare) is built with: which non-ASCII runes
+		// lower-case INTO ASCII (strings.ToLower results are only ever compared with ASCII constants),
+		// whether ASCII behaves as expected, whether a lower-cased rune can lower-case again.
+		{
+			var pairs []string
+			asciiOK, idem := true, true
+			for r := rune(0); r <= unicode.MaxRune; r++ {
+				l := unicode.ToLower(r)
+				if r < 0x80 {
+					want := r
+					if 'A' <= r && r <= 'Z' {
+						want = r + 32
+					}
+					if l != want {
+						asciiOK = false
+					}
+				} else if l < 0x80 {
+					pairs = append(pairs, fmt.Sprintf("(%d, %d)", r, l))
+				}
+				if unicode.ToLower(l) != l || l < 0 {
+					idem = false
+				}
+			}
+			fmt.Fprintf(&sb, "/-- every non-ASCII rune `r` with `unicode.ToLower(r) < 0x80`, with its image (all %d code points of this Go toolchain enumerated) -/\ndef lowerIntoAscii : List (Nat × Nat) := [%s]\n\n", int(unicode.MaxRune)+1, strings.Join(pairs, ", "))
+			fmt.Fprintf(&sb, "/-- `unicode.ToLower` on ASCII is `A-Z ↦ a-z`, identity elsewhere -/\ndef lowerAsciiExact : Bool := %v\n\n", asciiOK)
+			fmt.Fprintf(&sb, "/-- `unicode.ToLower` is idempotent and never negative -/\ndef lowerIdempotent : Bool := %v\n\n", idem)
 		}
 
 		for _, fn := range [][2]string{
